@@ -273,6 +273,10 @@ Fixpoint run_from (s : st) (ops : list op) : res st :=
   | o :: r => let* s' := step s o in run_from s' r
   end.
 
+(* a streamed payload (Payload::from_stream(first, size)), its reader in mode m, after the operations *)
+Definition run (m : mode) (first : bytes) (size : N) (ops : list op) : res st :=
+  run_from (init_stream m first size) ops.
+
 (* ---- vocabulary of the statements ---- *)
 (* the chunks put into the channel: the first piece (from_stream skips an empty one) and every Feed *)
 Definition first_chunks (first : bytes) : list bytes := match first with [] => [] | _ => [first] end.
